@@ -94,6 +94,8 @@ def run(chk, prog, tier):
     fnames = sorted({fn for fn, _, _ in inv} | {fn for fn, f in prog.lib_functions().items()
                                                  if any(callee_name(c) in kinds for c in walk(prog.body(f)) if c.get("kind") == "CallExpr")})
     doms = check_functions(chk, prog, fnames, kinds)
+    npair = ERR.pair_rule(chk, prog, fnames)
+    chk.floor("acquire/release pairs", npair, 5)
     # every must-check call site was seen by the flow analysis
     seen = set()
     for d in doms.values():
